@@ -806,13 +806,25 @@ int dispatch_printed_messages(const char* messages,
                     STACKALLOC(rtosc_arg_t, vals, val_max);
                     STACKALLOC(char, argstr, val_max+1);
 
+                    size_t n_vals = 0;
                     for(i = 0;
                         itr.i - last_pos < (size_t)nargs &&
                             i < elem_limit;
                         ++i)
                     {
                         cur = rtosc_arg_val_itr_get(&itr, &buffer);
-                        vals[i] = cur->val;
+                        // rtosc_amessage reads no value for the types
+                        // which carry none
+                        switch(cur->type)
+                        {
+                            case 'T':
+                            case 'F':
+                            case 'N':
+                            case 'I':
+                                break;
+                            default:
+                                vals[n_vals++] = cur->val;
+                        }
                         argstr[i] = cur->type;
                         rtosc_arg_val_itr_next(&itr);
                     }
